@@ -15,11 +15,15 @@ def paramsOf : Stack → Params
     { skxMandatory := Facts.tlcp.caSkxMandatory, minCerts := Facts.tlcp.caMinCerts,
       verifiedIdx := Facts.tlcp.caVerifiedIdx, resumeReverify := Facts.tlcp.caResumeReverifies,
       resumeMinCerts := Facts.tlcp.caResumeMinCerts, resumeIdx := Facts.tlcp.caResumeVerifiedIdx,
-      fullSteps := Facts.tlcp.caFullSteps, resumeSteps := Facts.tlcp.caResumeSteps }
+      fullSteps := Facts.tlcp.caFullSteps, resumeSteps := Facts.tlcp.caResumeSteps,
+      evictWipes := Facts.tlcp.caEvictWipesSecret, evictDrops := Facts.tlcp.caEvictDropsSecret,
+      loadClones := Facts.tlcp.caLoadSessionClones, secretGuard := Facts.tlcp.caResumeSecretGuard }
   | .dtlcp =>
     { skxMandatory := Facts.dtlcp.caSkxMandatory, minCerts := Facts.dtlcp.caMinCerts,
       verifiedIdx := Facts.dtlcp.caVerifiedIdx, resumeReverify := Facts.dtlcp.caResumeReverifies,
       resumeMinCerts := Facts.dtlcp.caResumeMinCerts, resumeIdx := Facts.dtlcp.caResumeVerifiedIdx,
-      fullSteps := Facts.dtlcp.caFullSteps, resumeSteps := Facts.dtlcp.caResumeSteps }
+      fullSteps := Facts.dtlcp.caFullSteps, resumeSteps := Facts.dtlcp.caResumeSteps,
+      evictWipes := Facts.dtlcp.caEvictWipesSecret, evictDrops := Facts.dtlcp.caEvictDropsSecret,
+      loadClones := Facts.dtlcp.caLoadSessionClones, secretGuard := Facts.dtlcp.caResumeSecretGuard }
 
 end Gotlcp.Model.ClientAuthn
